@@ -612,7 +612,7 @@ def run(ctx: Ctx) -> None:
         # two TLC processes: one C01 shard, one C02 shard (Shard = NShards switches the other universe off)
         shards = [(s % 48, 48, 16, 16), (48, 48, s % 16, 16)]
     else:
-        shards = [(s % 16, 16, 4, 4)] + [(16, 16, k, 4) for k in range(4)]   # one C01 shard; all of C02's N=2
+        shards = [((s + 5 * k) % 16, 16, 4, 4) for k in range(2)] + [(16, 16, k, 4) for k in range(4)]   # two C01 shards; all of C02's N=2
     cases, stayed = export_mutants(ctx, shards, workers=2)
     ordering_counterexamples(ctx, (s % 48, 48, s % 16, 16))
     ctx.exhaustive = False
